@@ -289,7 +289,8 @@ class Model(object):
                     role,
                     target_triple[2],
                 )
-            elif target == source_role and source == target_role:
+        for role, source, target in self.dereifications[concept]:
+            if target == source_role and source == target_role:
                 return (
                     cast(Variable, target_triple[2]),
                     role,
